@@ -1,4 +1,6 @@
 import ThruVerif.Model.FileSys
+import ThruVerif.Gen.Shapes
+import ThruVerif.Proofs.BufPool
 /-!
 # C01 / C02 / C06 (per-file core) — a file finalised ok is byte-identical to the source
 
@@ -490,3 +492,43 @@ example : ∃ m, MReach [⟨[7], [0], [false]⟩, ⟨[8, 9], [0, 0], [false, fal
   decide
 
 end TV.FileSys
+
+namespace TV.BufPool
+
+/-! ### chunk buffers shared by the transfers of one sender process (`Model/BufPool`) -/
+
+/-- **C01_checksum_over_own_bytes.** A buffer of the shared pool is taken, filled by a read-pool goroutine, summed, written and put
+back - by any number of workers of any number of transfers one after the other, with cancellations at any moment: as long as a
+cancelled reader waits for its queued read before it gives the buffer back (fix e43a242), the checksum of every frame is computed
+over the bytes that this frame's own read put there, and nobody writes into a buffer that lies in the pool. -/
+theorem C01_checksum_over_own_bytes (as : List Step) (s : St) (h : run true init as = some s) :
+    s.wrong = 0 ∧ (s.inPool = true → s.pendingIds = []) := by
+  have hI := inv_run inv_init h
+  refine ⟨hI.ok, fun hp => ?_⟩
+  have hn := hI.pool.mp hp
+  rw [hI.pend]
+  simp [expectedPending, hn]
+
+/-- premises satisfiable: a transfer cancelled while its read is queued (the read completes, then the cancelled call returns),
+followed by a complete cycle of another worker on the same buffer -/
+example : ∃ s, run true init [.take, .runRead 0, .cancel, .take, .runRead 1, .result, .sum, .put] = some s ∧ s.wrong = 0 ∧ s.inPool = true :=
+  ⟨_, rfl, rfl, rfl⟩
+
+/-- with the mutex a cancelled reader cannot give the buffer back while its read is pending -/
+example : run true init [.take, .cancel] = none := rfl
+
+/-- the code before fix e43a242 (the cancelled call returned at once): the abandoned read of the cancelled transfer completes after
+the next holder's own read - the checksum is computed over the wrong bytes (the schedule `stalebuf` replays on the real sender) -/
+theorem C01_recycled_buffer_refuted_before_fix :
+    ∃ s, run false init [.take, .cancel, .take, .runRead 1, .runRead 0, .result, .sum] = some s ∧ s.wrong = 1 := ⟨_, rfl, rfl⟩
+
+open TV.Gen.Shapes in
+set_option maxRecDepth 32768 in
+/-- `readAtWithPool`: once the job is queued, a cancelled call waits for the job's result before it returns (last case); the sender
+worker hands the buffer back right after the call - the only read that can target a pooled buffer is one whose caller still holds it -/
+theorem C01_source_readpool :
+    readpool_selects = ["getReadPool().jobs <- job => ", "<-time.After(10 * time.Minute) => fmt.Fprintf(termio.Stderr(), \"sender read queue timeout after 10m: offset=%d len=%d\\n\", offset, len(buf)); os.Exit(1); return 0, fmt.Errorf(\"sender read queue timeout after 10m\")", "<-ctx.Done() => return 0, ctx.Err()", "res := <-resultCh => return res.n, res.err", "<-time.After(10 * time.Minute) => fmt.Fprintf(termio.Stderr(), \"sender read timeout after 10m: offset=%d len=%d\\n\", offset, len(buf)); os.Exit(1); return 0, fmt.Errorf(\"sender read timeout after 10m\")", "<-ctx.Done() => select { case <-resultCh: case <-time.After(10 * time.Minute): }; return 0, ctx.Err()"] ∧
+    readpool_result_chan = ["resultCh := make(chan readResult, 1)"] ∧
+    send_read_args = ["transferCtx, f, offset, buf[:chunkLen]"] := by decide
+
+end TV.BufPool
